@@ -49,7 +49,7 @@ PROPS = {
         "not_covered": ["`data` with a custom `with` converter (`attrs` with one is covered: receivers D14/D15)", "partition-invariance as a separately stated lemma (it is implicit in the oracle: awalk folds run_from over the concatenation)"],
     },
     "C16": {
-        "units": ["c16_body_conversion", "c16_generics"],
+        "units": ["c16_body_conversion", "c16_generics", "c16_fields_helpers"],
         "gen": [{"corpus": "elems", "mode": "full"}],
         "classes": r"postcondition|invariant|post-condition of closure",
         "level_text": "Same emitted functions: the magic fields of the result are proved equal to the corresponding parts of the input element (ident, vis, ty, generics via FromGenerics, attrs = forwarded list, "
@@ -59,7 +59,7 @@ PROPS = {
                       "TypeParams::next yields exactly the type parameters in order and terminates; syn pass-through impls return the named part unchanged. syn seen through full-field mirrors with opaque leaves; converters through client-view traits.",
         "design_ref": "DESIGN.md section 6 C16",
         "assumptions": "L3",
-        "not_covered": ["magic fields with `with` converters or wrapped in SpannedValue/WithOriginal/Result at L3", "Fields::to_tokens print round trip (quote!/TokenStream: not expressible)", "From<(Style,U)> for Fields / Style::with_fields", "`data` / `fields` magic members with a `with` converter"],
+        "not_covered": ["magic fields with `with` converters or wrapped in SpannedValue/WithOriginal/Result at L3", "Fields::to_tokens print round trip (quote!/TokenStream: not expressible)", "`data` / `fields` magic members with a `with` converter"],
     },
     "C09": {
         "units": [],
@@ -75,25 +75,29 @@ PROPS = {
         "not_covered": ["`word = false` is read by the derive as no word variant (checked through the emitted-interface obligation only)"],
     },
     "C17": {
-        "units": ["c17_sibling_alts"],
+        "units": ["c17_sibling_alts", "c17_did_you_mean"],
         "kani": [
             {"name": "c17_scorer", "crate": "c17_scorer", "tmpl": "lib.rs.tmpl", "harnesses": ["did_you_mean_is_first_best_above_threshold"], "bounded": "at most 4 candidate names (unwind 6)"},
             {"name": "c17_add_alts", "crate": "c17_scorer", "tmpl": "add_alts.rs.tmpl", "harnesses": ["add_alts_only_improves"], "bounded": "loop-free over full-domain symbolic scores: complete, not bounded"},
         ],
-        "bounded_units": ["c17_scorer::did_you_mean_is_first_best_above_threshold: Kani, at most 4 candidates, unwinding assertions on (BOUNDED stand-in, not counted as proved beyond the bound)",
+        "bounded_units": ["c17_scorer::did_you_mean_is_first_best_above_threshold: Kani, at most 4 candidates, unwinding assertions on (BOUNDED cross-check with concrete IEEE f64 semantics; the deciding, unbounded proof of did_you_mean is the Verus unit c17_did_you_mean)",
                           "c17_add_alts::add_alts_only_improves: Kani, loop-free over all f64 scores in [0,1] (complete)"],
         "gen": [{"corpus": "structs", "mode": "full"}, {"corpus": "enums", "mode": "full"}, {"corpus": "elems", "mode": "full"}],
         "classes": r"assertion failed|post-condition of closure",
         "include_text": r"strs\(__alts@\)|e_sibling_alts",
-        "classes_text": r"(postcondition|invariant|termination).* :: .*(e_sib|sib_upto|add_sibling_alts)|kani harness failed",
+        "classes_text": r"(postcondition|invariant|termination).* :: .*(e_sib|sib_upto|add_sibling_alts)|kani harness failed|(postcondition|invariant|assertion).* :: .*(dym_ok|score\(__f|merged\(|s_k|unknown_with_alts_ok|ErrorKind::UnknownField\(err\))",
         "level_text": "In every emitted parser of the corpus the literal candidate list passed to unknown_field_with_alts is proved equal to the names addressable at that position "
                       "(non-skip, non-flatten fields; non-skipped variants), and the names passed to add_sibling_alts_for_unknown_field on a flatten result are the parent's addressable names; "
                       "suggestions are attached only by those two calls (oracle equality under C02/C03).",
-        "level_note": "Proof per program; programs sampled. The f64 scorer is outside Verus (no float order axioms): did_you_mean (first best above 0.8; BOUNDED to <= 4 candidates) and add_alts "
-                      "(strict improvement only; loop-free, complete) are Kani harnesses on the verbatim function text with strsim::jaro_winkler / did_you_mean replaced by symbolic stubs; dym_spec stays uninterpreted in the Verus units.",
+        "level_note": "Proof per program; programs sampled. The f64 scorer is proved UNBOUNDED in Verus unit c17_did_you_mean on the real bodies of did_you_mean, ErrorUnknownField::{new, with_alts, add_alts}, "
+                      "From<ErrorUnknownField> for ErrorKind and Error::unknown_field_with_alts: for any number of candidates and any score assignment the result is None iff no candidate scores above 0.8, "
+                      "else the FIRST candidate of maximal score (declarative statement dym_ok, not a restated fold); add_alts replaces the stored suggestion only by the best new candidate and only on strict improvement. "
+                      "This rests on stated axioms: non-NaN f64 comparison is a strict total order (IEEE 754), jaro_winkler is a non-NaN function of its arguments. The two Kani harnesses on the verbatim function text "
+                      "(did_you_mean BOUNDED to <= 4 candidates; add_alts loop-free, complete) stay as cross-checks under CBMC's concrete f64 semantics. dym_spec stays an uninterpreted FUNCTION in the L3 units "
+                      "(what the emitted code is checked against is that the candidate list is right; what a candidate list yields is this unit).",
         "design_ref": "DESIGN.md section 6 C17",
         "assumptions": "L3",
-        "not_covered": ["did_you_mean beyond 4 candidates (bounded Kani stand-in)", "feature `suggestions` off (the cfg(not(suggestions)) stub returns None by inspection; not run)", "the similarity function itself (strsim)"],
+        "not_covered": ["Error::unknown_field_path_with_alts (path_to_string + the same with_alts call)", "feature `suggestions` off (the cfg(not(suggestions)) stub returns None by inspection; not run)", "the similarity function itself (strsim)"],
     },
     "C18": {
         "units": ["c18_shape"],
@@ -124,7 +128,7 @@ PROPS = {
         ],
     },
     "C19": {
-        "units": ["c19_usage", "c19_lifetimes", "c19_trait_impl"],
+        "units": ["c19_usage", "c19_lifetimes", "c19_trait_impl", "c19_usage_outer", "c19_outer_from_impl"],
         "level_text": "Type-parameter and lifetime usage analysis (core/src/usage/type_params.rs, lifetimes.rs: every hand-written impl, every uses_type_params!/uses_lifetimes! macro instance "
                       "(24 + 31, instantiated from macros_public.rs with the invocation's actual field list), Option/Vec/Punctuated impls, the blanket collect_*/_cloned, trait default *_cloned, "
                       "Options::from/include_type_path_qself) is proved by Verus on the real bodies, incl. termination of the mutual recursion, to return exactly the oracle written from the statement: "
@@ -132,7 +136,11 @@ PROPS = {
                       "qualified-self only for Purpose::Declare, collection = union of members; proved lemma families show every answer is a subset of the queried set. "
                       "TraitImpl::{declared_type_params, used_type_params, type_params_matching, type_params_in_fields} and the codegen::Field/Variant, ast::Data/Fields impls: the bounded parameters are exactly "
                       "the declared type params used (BoundImpl) by non-skipped fields, for enums by non-skipped fields of non-skipped variants. compute_impl_bounds: where-clause, angle tokens, lifetime/const "
-                      "params unchanged, each type param gains exactly the plain trait bound at the end iff it is in applies_to.",
+                      "params unchanged, each type param gains exactly the plain trait bound at the end iff it is in applies_to. "
+                      "Outside usage/ (unit c19_usage_outer): UsesTypeParams/UsesLifetimes for ast::Data<V,F>, ast::Fields<T> (generic in V, F, T; lemmas pin them to the field-list / variant-list oracles) and util::Ignored (empty set); "
+                      "GenericsExt::declared_type_params / declared_lifetimes == exactly the declared type-parameter idents / lifetimes (const params, bounds, defaults contribute nothing). "
+                      "Bound placement (unit c19_outer_from_impl): OuterFromImpl::wrap for every implementor appends exactly one item `impl<G'> trait_path() for ident<G'> <the receiver's own where-clause> { body }` where G' repeats the receiver's generics "
+                      "and adds trait_bound() to exactly the used type params; trait_path/trait_bound/base of all six implementors (trait_bound == ::darling::FromMeta for all six, the trait default body verified where there is no override).",
         "level_note": "Proof for all mirrored syntax trees, purposes and sets. Generic impls proved per instantiation the walk uses (Verus rejects the trait-dictionary cycle). Filters are generic Fn parameters: "
                       "contracts quantify over what the filter answered per element (forward direction of closure ensures). R2 loop rewrites keep closure bodies verbatim; removing a `.filter` is translated by an "
                       "opt fallback; other chain restructurings or replacing a macro invocation by a hand impl lose an anchor (exit 2).",
@@ -146,11 +154,13 @@ PROPS = {
             "R2: fold / filter-collect / iter_mut / .iter().filter(f) are replaced by their defining index loops (filter calls f once per element, in order); closure and loop bodies are spliced verbatim; Fields::iter() is read as self.fields.iter()",
             "R8: macro instances are the macro_rules transcriber instantiated with the invocation's arguments ($crate -> crate); R15: trait-impl methods verified as inherent methods or as methods of a mirror trait for std receivers; R1b: `_` parameter named `_p1`",
             "R4: the two closures of used_type_params get `ensures b == <their own body>`; derive(PartialEq) on Purpose and From<Purpose> for Options are written out as spec twins and proved equal to the real bodies",
+            "c19_outer_from_impl: quote!/path! invocations compile against mirror macros at the top of the unit (slot order read from the source); used_type_params/declared_type_params through a contract stub whose oracle text is copied from units/c19_trait_impl.vrs (proved there)",
+            "c19_usage_outer: Lifetime::clone equal value, LifetimeSet::{default, insert} per std HashSet (assumed)",
             "the lifetime oracle does not model scopes: a for<'a> binder's own name counts as the code counts it; rustc forbids lifetime shadowing, so it can never be a declared parameter",
         ],
         "not_covered": [
-            "OuterFromImpl::wrap token emission (generics.split_for_impl, quote!) and the FromMeta impl's own bound placement; GenericsExt::declared_lifetimes / declared_type_params",
-            "UsesLifetimes impls outside usage/ (ast::Data/Fields, util::Ignored); UsesTypeParams for util::Ignored",
+            "ImplGenerics/TypeGenerics printing (split_for_impl), the #body contents and the FromMeta impl's own token text; where-clause predicates (presence tracked, content opaque)",
+            "observation: Core::bound (#[darling(bound = ..)]) is parsed and never read by any codegen path - the statement's 'where-clause repeated unchanged' holds, the option is dead",
             "positions the mirrors do not model: the <..> of an associated-type binding or constraint, array lengths and const-argument expressions, type macros, TypeBareFn's own for<..> binder, TypeParam defaults (observations in DESIGN.md section 8)",
             "replacing a macro invocation by a hand-written impl, or a field the mirror lacks, is undecided (exit 2), not an alarm",
             "panic-freedom on syn variants the mirrors do not have (TypeParamBound::Verbatim/PreciseCapture, future #[non_exhaustive] variants)",
@@ -178,11 +188,15 @@ PROPS = {
         "not_covered": ["splitting half of C15 (syn parser / printer): parse_meta_list, Parse/ToTokens for NestedMeta, print-parse round trip", "termination of from_expr"],
     },
     "C12": {
-        "units": ["c12_wrappers", "c12_override_expr", "c12_ident_atomic"],
+        "units": ["c12_wrappers", "c12_override_expr", "c12_ident_atomic", "c12_wrapper_elements", "c12_wrapper_helpers"],
         "classes": r"postcondition|post-condition of closure|assertion failed|precondition not satisfied",
         "level_text": "Every FromMeta method of Option<T>, darling Result<T>, Result<T,Meta>, Box/Rc/Arc/RefCell<T> (macro instances), Override<T>, SpannedValue<T>, WithOriginal<T,Meta>, Flag, (), bool "
                       "is proved on its real body, for every T and item, in the form exists r0. call_ensures(T::hook, args, r0) && r == wrap(r0) (from_none likewise; SpannedValue span = path | list tokens | value expr; "
-                      "WithOriginal.original == *item; Result never Err). Probe-instantiated checks prove for PAll/PNone that every item form through each wrapper equals wrap(what T itself returns), and the absent-item behaviour of all wrappers. IdentString: new/From<Ident> establish string == Display(ident); from_meta == syn::Ident's verdict on every item form, wrapped; as_ident/as_str/span/From<IdentString> for Ident and String return exactly the stored parts. AtomicBool::from_meta == bool's verdict re-wrapped, errors spanned (route_AtomicBool: bool's full per-form table).",
+                      "WithOriginal.original == *item; Result never Err). Probe-instantiated checks prove for PAll/PNone that every item form through each wrapper equals wrap(what T itself returns), and the absent-item behaviour of all wrappers. IdentString: new/From<Ident> establish string == Display(ident); from_meta == syn::Ident's verdict on every item form, wrapped; as_ident/as_str/span/From<IdentString> for Ident and String return exactly the stored parts. AtomicBool::from_meta == bool's verdict re-wrapped, errors spanned (route_AtomicBool: bool's full per-form table). "
+                      "Element-level traits (unit c12_wrapper_elements): all six spanned! instances (Ok(v) => SpannedValue{v, span of the element}; Err(e) => e.with_span(element)), all six with_original! instances (parsed == T's outcome, original == an identical copy of the element, T's error unchanged), "
+                      "all seven ignored! instances (Ok(Ignored) for every input), SpannedValue::{new, span, map_ref, Default, Deref, DerefMut, AsRef, From<T: Spanned>}, WithOriginal::new, and two-level compositions over a probe element receiver. "
+                      "Helpers (unit c12_wrapper_helpers): Override::{as_ref, as_mut, is_explicit, explicit, unwrap_or, unwrap_or_else, unwrap_or_default, Default, From<Option<T>>} against the Option bijection (Inherit <-> None, Explicit(v) <-> Some(v)); "
+                      "IdentString::map (text == what map_fn returned for the old text, span kept), AsRef x2, PartialEq x3.",
         "level_note": "Override<T> for name=value items is its own obligation (unit c12_override_expr): it failed on the pinned tree (F2) and holds since fix commit b99d737. "
                       "SpannedValue adds the item's span to a spanless error of T (as C03 demands); otherwise errors are T's unchanged.",
         "design_ref": "DESIGN.md section 6 C12",
@@ -194,19 +208,24 @@ PROPS = {
             "RefCell is opaque: RefCell::new(v) == refcell_of(v) (uninterpreted); Box/Rc/Arc use vstd's transparent model (*p == v)",
             "R8: smart_pointer_t!/with_original! instances are instantiated by tools/extract from darling's own macro_rules",
             "syn::Ident impl through prelude/syn_ident_impl.vrs (proved in c13_syn_values), bool impl through prelude/bool_impl.vrs (proved in c11_misc)",
+            "c12_wrapper_elements / c12_wrapper_helpers: the six syn element types are opaque (span() a function of the node, clone() an equal node); element-level traits are contract-free mirrors reached through call_ensures; Span::call_site() a constant; Ident::new(s, sp) displays as s at sp; Ident == Ident compares texts; local AsRef mirror with an implementer-defined relation",
             "AtomicBool opaque mirror (std type is the unstable generic Atomic<bool>): new(b) == atomic_of(b); Ident::span / Display uninterpreted; vstd FromSpecImpl declared for the two From<IdentString> impls (from_spec proved against the bodies)",
         ],
-        "not_covered": ["IdentString::map, Hash, Display/Debug, PartialEq family", "SpannedValue/WithOriginal impls of the other From* traits", "Override<T> helper methods (as_ref, unwrap_or, ..)", "two-level compositions beyond Box<Option<_>>"],
+        "not_covered": ["IdentString Hash/ToTokens/Display/Debug and derived Clone/Ord; Override Display", "Ident::new panicking on text that is not an identifier (IdentString::map documents that panic; not modelled)", "two-level compositions beyond Box<Option<_>> and the element-level pairs of c12_wrapper_elements",
+                        "observation (not part of C12): util::Ignored overrides only from_meta, so Ignored::from_value / from_expr / from_list called directly fall back to the trait defaults and return Err although its doc says every element is read successfully; not reachable through darling's own code"],
     },
     "C10": {
-        "units": ["c10_field_options", "c10_variant_core_options", "c10_receivers", "c10_element_options", "c10_codegen_views", "c10_shape_words", "c06_middleware", "c06_parse_attr", "l2_options_api"],
+        "units": ["c10_field_options", "c10_variant_core_options", "c10_receivers", "c10_element_options", "c10_codegen_views", "c10_shape_words", "c06_middleware", "c06_parse_attr", "l2_options_api", "c10_codegen_conversions", "c10_parse_data_defaults"],
         "classes": r"postcondition|invariant|assertion failed|post-condition of closure",
         "level_text": "Every derive-time option parser of core/src/options is proved on its real body against contracts written from the rule list: InputField/InputVariant/Core/FromMetaOptions/OuterFrom/ForwardedField::parse_nested, "
                       "from_field/from_variant, Core::start, all validate_body, the six receivers' `new` (FromMeta, FromAttributes, FromDeriveInput, FromField, FromVariant, FromTypeParam) and their parse_nested/parse_field. "
-                      "Accepted => invariant wf() and exactly the addressed option changed; Err for unknown/repeated options, map+and_then, each flatten conflict in BOTH orders; validate_body grows errors by exactly the number of violations, each at its token; "
+                      "Accepted => invariant wf() and exactly the addressed option changed; Err for unknown/repeated options, map+and_then, each flatten conflict in BOTH orders; validate_body grows errors by exactly the number of violations, each at its token; parse_body has no exit (`?`/return) before validate_body has run, so element-level and cross-field diagnostics are reported together (ghost flag, name-independent anchor); "
                       "magic fields are recognised by Rust name alone (ident, attrs | vis, generics, data | vis, ty | discriminant, fields | bounds, default) and change exactly their slot; a union, an enum for element-level traits (with or without variants), "
                       "an unrepresentable tuple body for FromMeta give diagnostics only. Shape words: DeriveInputShapeSet::from_list and DataShape::from_list equal fold oracles (exactly any/struct_*/enum_* resp. the five bare words; first mistake vs all mistakes). "
-                      "Views handed to codegen: from_word = first variant whose word is TRUE, as_codegen_field/as_codegen_variant copy names, flags, defaults and converters, Field::as_name is None iff skip||flatten; forward_attrs lists and will_forward_any.",
+                      "Views handed to codegen: from_word = first variant whose word is TRUE, as_codegen_field/as_codegen_variant copy names, flags, defaults and converters, Field::as_name is None iff skip||flatten; forward_attrs lists and will_forward_any. "
+                      "Conversions to codegen (unit c10_codegen_conversions): From<&Core> for TraitImpl (ident, generics by reference; data of the same kind/style/span/length with the i-th field/variant what as_codegen_field/as_codegen_variant promise, in order; "
+                      "default through as_codegen_default - panic arm unreachable under wf -, post_transform, allow_unknown_fields absent = false), OuterFrom::as_forward_attrs, all six From<&XOptions> for XImpl (every member the same-named option, nothing dropped, swapped or defaulted), "
+                      "ToTokens of the six option structs (exactly the tokens of the converted struct are appended). ParseData default bodies (unit c10_parse_data_defaults): parse_variant/parse_field return exactly the unsupported-format error spanned at the element and leave self unchanged; validate_body leaves the errors unchanged.",
         "level_note": "Deductive proof for all inputs of the option layer, modulo opaque syn and uninterpreted option-value conversions (converse only modulo 'every option value converts'). wf() is a parse-time invariant (after with_inherited only wf_codegen()). "
                       "F1/F4/F9 fixed by /repo commits ae776c6 / 5ac3a9a / 5a67c48. F16 (DataShape::from_list placed unknown-word diagnostics at the whole supports(..) item, not at the word) fixed by /repo commit 0663dbb. "
                       "Residual false-alarm risk: restructuring a verified loop.",
@@ -221,27 +240,31 @@ PROPS = {
             "R5 string matches -> str_eq/opt_str_is chains (name-independent wildcard anchors); R2/R6 iterator chains and for loops -> defining loops; R10 tail let-binding; R11 format! texts uninterpreted; R12 parse_quote!/parse_quote_spanned! -> opaque values determined by the spliced arguments; R15 trait methods in place, parse_attributes in a blanket subtrait",
             "Fields::as_ref / Fields::map: contract-only here, same contract text proved in c16_body_conversion; Error::unknown_field / unknown_field_path_with_alts, Path::from_expr, NestedMeta::parse_meta_list, From<syn::Error>, From<ExprClosure> for Callable: external; Error/Accumulator contracts proved in l1_error_api / c05_accumulator",
         ],
-        "not_covered": ["From<&Core> for TraitImpl and the From<&XOptions> for XImpl conversions (Data::as_ref/map_* chains)", "default bodies of ParseData::parse_field / validate_body",
+        "not_covered": ["the variant relation of From<&Core> for TraitImpl is only as strong as as_codegen_variant's contract (field_view_ok per field)",
                         "routing of `supports(..)` / `forward_attrs(..)` items from FromMeta::from_meta to from_list/from_word (C15)", "ToTokens of the option types",
                         "'word = false' is counted as a word annotation by validate_body (contract and code agree); from_word ignores it (proved)"],
     },
     "C06": {
-        "units": ["c06_parse_attr", "c06_middleware", "c10_field_options", "c10_variant_core_options", "c10_receivers", "c10_element_options", "c10_codegen_views", "c10_shape_words", "l2_options_api"],
+        "units": ["c06_parse_attr", "c06_middleware", "c10_field_options", "c10_variant_core_options", "c10_receivers", "c10_element_options", "c10_codegen_views", "c10_shape_words", "l2_options_api", "c10_codegen_conversions", "c10_parse_data_defaults", "c06_derive_entry"],
         "classes": r"precondition not satisfied|assertion failed|postcondition|invariant|unreachable|panic",
         # parse_nested / validate_body carry C10's functional contracts (which option changes, how many violations); for C06 they count
         # with their panic-site preconditions and the accumulator-discipline assertions only
         "fn_classes": [(r"^(parse_nested|validate_body)$", r"precondition not satisfied|assertion failed|unreachable|panic")],
+        # parse_body's `__checked` assertions state C10's "all violated rules are reported in one pass" (no exit before validate_body has run): not a totality claim
+        "exclude_text": r"__checked",
         "level_text": "Every panic!/unreachable!/unwrap in the option layer is kept in the extracted text and proved unreachable: parse_field/parse_variant/parse_body from the body-shape agreement Core::start establishes and option parsing preserves, "
                       "Core::as_codegen_default from 'default is never Inherit', get_ident().unwrap() from is_ident, segments.first().unwrap() in the shape word parsers from syn's non-empty-path guarantee. parse_attr is total for every attribute form "
                       "(bare, name-value, literal items, non-list token content) and no `?`/return executes while an accumulator created in the function is live (R13 ghost counters). All six receivers' `new` return normally with either a receiver whose "
-                      "codegen preconditions hold (wf, representable body, no cross-field violation, struct body for element-level traits) or a bundle of >= 1 diagnostics; a union, an empty enum and an enum with variants are rejected for element-level traits.",
+                      "codegen preconditions hold (wf, representable body, no cross-field violation, struct body for element-level traits) or a bundle of >= 1 diagnostics; a union, an empty enum and an enum with variants are rejected for element-level traits. "
+                      "Entry points (unit c06_derive_entry): each of the six derive::* functions returns exactly write_errors(e) when the receiver's `new` fails and exactly the tokens of the receiver when it succeeds, with no panic path; into_token_stream's precondition (container default never Inherit) is discharged from `new`'s contract.",
         "level_note": "Covers the option-parsing half of all six derives. F1/F4 (and F12: empty enum) fixed in /repo (ae776c6, 5ac3a9a, 508a424) and in the baseline. Not covered: codegen to_tokens skeleton, 'exactly one impl block', write_errors. "
                       "syn parsers and option-value converters are assumed not to panic.",
         "design_ref": "DESIGN.md section 6 C06",
-        "assumptions": ["as C10", "R13: ghost flag/counter set at Error::accumulator(), asserted clear at every expanded `?`/return (guard_try)",
+        "assumptions": ["as C10", "c06_derive_entry / c10_codegen_conversions: token emission is modelled (prelude/options_tokens.vrs): tokens_of/tokens_cat/error_tokens/empty_tokens uninterpreted, ToTokens impls of the six impl structs external; Data::{as_ref, map_struct_fields, map_enum_variants} and FromMetaOptions/FromAttributesOptions::new restated as external contracts (proved in c16_body_conversion / c10_receivers)", "R13: ghost flag/counter set at Error::accumulator(), asserted clear at every expanded `?`/return (guard_try)",
                         "R18: `E?` on a syn::Result expanded to match + Error::from(e); NestedMeta::parse_meta_list and From<syn::Error> uninterpreted",
                         "R12: attr.meta.path() == &parse_quote!(darling) -> path.is_ident(\"darling\")"],
-        "not_covered": ["codegen stage (to_tokens panics are excluded only through the receivers' `new` postconditions)", "From<&XOptions> for XImpl conversions", "derive::* entry points and Error::write_errors"],
+        "not_covered": ["codegen stage (to_tokens panics are excluded only through the receivers' `new` postconditions; codegen's own panics are left to the L3 units)", "Error::write_errors itself (external here; its `proper` precondition from c04_syn_conversion is not established for the errors `new` returns)",
+                        "emit_impl_or_error! sits in expression position: unit c06_derive_entry expands it with an opt rewrite whose right-hand side is a hand copy of the transcriber, so an edit of the macro_rules text itself is not seen"],
     },
     "C11": {
         "units": ["c11_ints", "c11_nonzero", "c11_misc"],
@@ -266,7 +289,7 @@ PROPS = {
         "not_covered": ["an edit that introduces an untyped closure is flagged (its result is unknown to Verus) even if harmless", "that quoted and unquoted plain-decimal spellings denote the same value (std vs syn parser agreement: trusted)", "termination of the default from_expr on nested groups (R17)"],
     },
     "C13": {
-        "units": ["c13_syn_values", "c13_parse_expr", "c13_parse_expr_agree", "c13_callable_group", "c13_arrays", "c12_ident_atomic"],
+        "units": ["c13_syn_values", "c13_parse_expr", "c13_parse_expr_agree", "c13_callable_group", "c13_arrays", "c12_ident_atomic", "c13_path_helpers", "c13_callable_conv"],
         "classes": r"postcondition|post-condition of closure|assertion failed|precondition not satisfied|invariant",
         "level_text": "syn::Expr, syn::Path, syn::Ident, from_syn_expr_type! x3, from_syn_parse! x18, from_meta_lit! x8 (from_value), syn::Lit, syn::Meta, Vec<WherePredicate>, Punctuated<T,P>, PathList::from_list, Callable::from_expr, IdentString, "
                       "preserve_str_literal and parse_str_literal are proved on their real bodies: bare form => Ok(the user's node itself); quoted form => Ok(what syn's parser for T makes of exactly that literal / string) or unknown value at the literal; "
@@ -284,10 +307,10 @@ PROPS = {
             "R2c: `.iter().map(f).collect::<Result<Vec<_>>>()` -> its short-circuit loop (opt prefix/suffix pair, closure body in place); R6w: `while let` peel loop -> loop+match with invariant; R1c: `|_|` -> `|__w|`; Result::or_else (std_assumed_wrappers)",
         ],
         "not_covered": ["an adapter inserted into a short-circuit chain loses the anchor (exit 2)",
-                        "bare and quoted spellings give EQUAL values (needs parse(print(x)) == x for syn)", "PathList::new/to_strings, Callable From impls, IdentString::map and its Eq/Hash/Display impls"],
+                        "bare and quoted spellings give EQUAL values (needs parse(print(x)) == x for syn)", "IdentString Hash/Display impls; ToTokens for Callable / PathList (token-stream code)"],
     },
     "C14": {
-        "units": ["c14_maps", "c14_key_ident"],
+        "units": ["c14_maps", "c14_key_ident", "c13_path_helpers"],
         "classes": r"postcondition|invariant|post-condition of closure|assertion failed|precondition not satisfied",
         "level_text": "All five map! instances (HashMap<String|Ident|Path,V,S>, BTreeMap<String|Ident,V>) are proved on the macro's real body, for every V: FromMeta and every item list, against ONE oracle over the item sequence "
                       "(keys_seen/entries/errs after k items): exists vals (V's verdict per named item, via call_ensures) with view(r) == Ok(entries(n)) iff errs(n)==[] else Err(e_multiple(errs(n))), and Ok => exactly n entries; "
@@ -305,12 +328,12 @@ PROPS = {
             "R2: nested.iter().map(closure) + for -> as_pair_fn(closure) + index while calling it per item in order; R3/R10 closure headers and let-bound from_meta call; R14 syn::Ident -> Ident",
             "Accumulator / Error / FromMeta defaults seen through contracts proved in c05_accumulator, l1_error_api, c15_routing",
         ],
-        "not_covered": ["util::path_to_string body", "value types beyond generic V + probe PAll (nested maps follow from genericity)", "HashMap/BTreeMap from_meta routing into from_list (C15 default)", "constructor expressions in map! rules 1/2"],
+        "not_covered": ["the map units still read key text through the uninterpreted path_str; unit c13_path_helpers proves path_to_string == the segment idents joined by \"::\" on a structural Path mirror, the two mirrors are not yet merged", "value types beyond generic V + probe PAll (nested maps follow from genericity)", "HashMap/BTreeMap from_meta routing into from_list (C15 default)", "constructor expressions in map! rules 1/2"],
     },
     "C07": {
         "ignore_tags": True,
         "classes_text": r"assertion failed :: .*(__live|__armed)",
-        "units": ["c11_ints", "c11_nonzero", "c11_misc", "c13_syn_values", "c12_wrappers", "c15_routing", "c18_shape", "c16_body_conversion", "c16_generics", "c14_maps", "c14_key_ident", "c08_parse_attribute", "c04_syn_conversion", "c04_error_tree", "c05_accumulator", "c17_sibling_alts", "c13_arrays", "c13_parse_expr", "c13_callable_group", "c12_ident_atomic", "c12_override_expr"],
+        "units": ["c11_ints", "c11_nonzero", "c11_misc", "c13_syn_values", "c12_wrappers", "c15_routing", "c18_shape", "c16_body_conversion", "c16_generics", "c14_maps", "c14_key_ident", "c08_parse_attribute", "c04_syn_conversion", "c04_error_tree", "c05_accumulator", "c17_sibling_alts", "c13_arrays", "c13_parse_expr", "c13_callable_group", "c12_ident_atomic", "c12_override_expr", "c17_did_you_mean", "c12_wrapper_elements", "c12_wrapper_helpers", "c19_usage_outer", "c19_outer_from_impl", "c13_path_helpers", "c13_callable_conv", "c16_fields_helpers"],
         "gen": [{"corpus": "structs", "mode": "full"}, {"corpus": "enums", "mode": "full"}, {"corpus": "elems", "mode": "full"}, {"corpus": "supports", "mode": "full"}],
         "classes": r"precondition not satisfied|overflow|underflow|division by zero|index out of|unreachable|panic",
         "level_text": "Every expect()/unwrap/index/arithmetic site and every accumulator-armed precondition in the emitted parsers is a proved Verus precondition for all inputs "
